@@ -56,30 +56,32 @@ def rule_fileset_source(ctx, rep):
         raise AnalysisError("expected >= 2 concrete get_files_to_analyze implementations")
     for fn in gf:
         kind = "remediation" if "codemodder.codemods.base_codemod.RemediationCodemod" in ctx.prog.mro(fn.cls.qname) else "find-and-fix"
-        srcs = _return_sources(ctx, fn)
+        from ..derive import ElemSources
+
+        es = ElemSources(ctx, fn)
+        rets = [n.value for n in walk_no_nested(fn.node) if isinstance(n, ast.Return) and n.value is not None]
+        srcs = []
         bad = []
-        for s in srcs:
-            if isinstance(s, (ast.List, ast.Tuple)) and not s.elts:
-                continue
+        for rv in rets:
             if kind == "find-and-fix":
-                ok = isinstance(s, ast.Attribute) and s.attr == "find_and_fix_paths"
+                for leaf, _f in es.sources(rv):
+                    srcs.append(leaf)
+                    if not (isinstance(leaf, ast.Attribute) and leaf.attr == "find_and_fix_paths"):
+                        bad.append(leaf)
             else:
-                ok = isinstance(s, ast.Call) and last_attr(s.func) == "filter_paths"
-                if ok and s.args:
-                    alts = [s.args[0]]
-                    if isinstance(s.args[0], ast.IfExp):
-                        alts = [s.args[0].body, s.args[0].orelse]
-                    inner = []
-                    for a in alts:
-                        if isinstance(a, (ast.List, ast.Tuple)) and not a.elts:
-                            continue
-                        if isinstance(a, (ast.ListComp, ast.GeneratorExp)):
-                            inner.append(a.generators[0])
-                        else:
-                            ok = False
-                    ok = ok and all(isinstance(g.iter, ast.Attribute) and g.iter.attr == "files_to_analyze" for g in inner) and bool(inner)
-            if not ok:
-                bad.append(s)
+                # every returned list is context.filter_paths(<elements of context.files_to_analyze>)
+                alts = [rv.body, rv.orelse] if isinstance(rv, ast.IfExp) else [rv]
+                for alt in alts:
+                    alt = ctx.resolver(fn).expand(alt)
+                    if isinstance(alt, (ast.List, ast.Tuple)) and not alt.elts:
+                        continue
+                    srcs.append(alt)
+                    if not (isinstance(alt, ast.Call) and last_attr(alt.func) == "filter_paths" and alt.args):
+                        bad.append(alt)
+                        continue
+                    for leaf, _f in es.sources(alt.args[0]):
+                        if not (isinstance(leaf, ast.Attribute) and leaf.attr == "files_to_analyze"):
+                            bad.append(leaf)
         rep.check("R-FILESET-SOURCE", fn.qname, fn.loc(), not bad and bool(srcs), f"{kind}:source",
                   "returned files are drawn from " + ", ".join(f"`{unparse(b)[:50]}`" for b in bad)
                   + (" instead of context.find_and_fix_paths" if kind == "find-and-fix" else " instead of context.filter_paths(<files_to_analyze subset>)")
@@ -162,20 +164,16 @@ def rule_enum_siblings(ctx, rep):
     )
     for q in ("codemodder.code_directory.files_for_directory", "codemodder.project_analysis.file_parsers.base_parser.BaseParser.find_file_locations"):
         fn = ctx.prog.func(q)
-        comps = [n for n in walk_no_nested(fn.node) if isinstance(n, (ast.ListComp, ast.GeneratorExp))]
-        ok = False
-        for c in comps:
-            for g in c.generators:
-                enumerates = isinstance(g.iter, ast.Call) and last_attr(g.iter.func) in ("rglob", "glob", "iterdir")
-                # the kept elements must *all* be non-symlinks: a negative is_symlink fact established by the filter as a whole
-                from ..flow import cond_facts
+        from ..derive import ElemSources
 
-                facts = set()
-                for cond in g.ifs:
-                    facts |= cond_facts(cond, True)
-                filt = any((not pol) and txt.endswith("is_symlink()") for pol, txt in facts)
-                if enumerates and filt:
-                    ok = True
+        es = ElemSources(ctx, fn)
+        rets = [n.value for n in walk_no_nested(fn.node) if isinstance(n, ast.Return) and n.value is not None]
+        leaves = [x for rv in rets for x in es.sources(rv)]
+        enum_leaves = [(leaf, f) for leaf, f in leaves if isinstance(leaf, ast.Call) and last_attr(leaf.func) in ("rglob", "glob", "iterdir", "walk", "scandir", "listdir")]
+        if not enum_leaves:
+            raise AnalysisError(f"{q}: no file-system enumeration found among the returned elements")
+        # the kept elements must *all* be non-symlinks: a negative is_symlink fact on every element that is returned
+        ok = all((False, "$E.is_symlink()") in f for _leaf, f in enum_leaves)
         rep.check("R-ENUM-SIBLINGS", q, fn.loc(), ok, "symlink-filter",
                   "enumerates project files without `not path.is_symlink()`: a symlink pointing outside the target is read/written through "
                   "(its sibling enumerator filters symlinks)")
